@@ -185,6 +185,10 @@ type S struct {
 	Global  bool
 	// Semis: a for statement written with its two semicolons even when init and post are empty
 	Semis bool
+	// Raw: source text printed instead of the statement (for a group of declarations written in a form the printer does
+	// not produce, e.g. a const group with iota: the first statement carries the text, the others "-"); the statement
+	// itself is the meaning
+	Raw string
 	// TopLevel: a statement of an Eval-style program outside any function: its declarations are
 	// package-level variables (printed in their ordinary form)
 	TopLevel bool
@@ -553,6 +557,17 @@ func (p *printer) simple(s *S) string {
 }
 
 func (p *printer) stmt(s *S) {
+	if s.Raw != "" {
+		s.Line = p.line
+		if s.Raw != "-" {
+			for _, l := range strings.Split(s.Raw, "\n") {
+				p.indent()
+				p.w(l)
+				p.nl()
+			}
+		}
+		return
+	}
 	p.indent()
 	s.Line = p.line
 	switch s.K {
